@@ -2880,6 +2880,20 @@ func (p *Posix) PutObject(ctx context.Context, po s3response.PutObjectInput) (s3
 			// directory object
 			return s3response.PutObjectOutput{}, s3err.GetAPIError(s3err.ErrDirectoryObjectContainsData)
 		}
+		if po.Body != nil {
+			// The body is read to its end all the same: the comparison of
+			// the data with the signed payload hash (and with Content-MD5,
+			// checksums, chunk signatures) happens when the readers see
+			// the end of the stream, and a body sent without an announced
+			// length has not been looked at yet.
+			n, err := io.Copy(io.Discard, po.Body)
+			if err != nil {
+				return s3response.PutObjectOutput{}, err
+			}
+			if n != 0 {
+				return s3response.PutObjectOutput{}, s3err.GetAPIError(s3err.ErrDirectoryObjectContainsData)
+			}
+		}
 
 		err = backend.MkdirAll(name, uid, gid, doChown, p.newDirPerm)
 		if err != nil {
